@@ -62,6 +62,9 @@ class AddrModels(SocksModels):
             if args:
                 tot = tot + num(args[0]) * 86400
             return [(path, VDelta(z3.simplify(tot)))]
+        if obj is str and len(args) == 1 and isinstance(args[0], VBoundExt) and isinstance(args[0].recv, VOpaque) and args[0].recv.kind == "Addr":
+            # the text of a field of an existing entry (its previous address, name ...): some text, nothing known about it
+            return [(path, VStr(ex.fresh_str(path, 'str_of_addr_field')))]
         import shlex
         if obj is shlex.split:
             self.assumptions.add('shlex.split yields the tokens of the ADDRMAP line (uninterpreted: units take the token list as given)')
